@@ -109,6 +109,15 @@ def p_token_of_node(I, args, kwargs, node):
     return SV(_fn("node_tokens", Abs("Node"), _Toks)(_node_term(I, args[-1])), _Toks)
 
 
+def p_normalize(I, args, kwargs, node):
+    """_utils.normalize(tokens): the token sequence without trailing commas / with joined string fragments - used to *compare*
+    source tokens with generated ones; as code it is a different text (a 1-tuple loses its comma)"""
+    t = args[0]
+    if isinstance(t, SV) and t.ty == _Toks:
+        return SV(_fn("normalized", _Toks, _Toks)(t.t), _Toks)
+    return Opaque("normalize(...)")
+
+
 def p_token_to_code(I, args, kwargs, node):
     t = args[-1]
     if isinstance(t, SV) and t.ty == _Toks:
@@ -134,6 +143,7 @@ from pyvc.specs import SPEC_NS
 SPEC_NS.update({"code_of": s_code_of, "tokens_differ": s_tokens_differ})
 R.DEFAULT_POLICIES.update({
     "inline_snapshot._utils.value_to_token": p_value_to_token,
+    "inline_snapshot._utils.normalize": p_normalize,
     "SourceFile._token_of_node": p_token_of_node,
     "SourceFile._token_to_code": p_token_to_code,
     "SourceFile._value_to_code": "inline",
